@@ -41,6 +41,7 @@ def execute(hist, path):
     for step in hist:
         op = step["op"]
         st = "ok"
+        msg = ""
         try:
             with dbio.quiet():
                 if op == "create":
@@ -82,9 +83,10 @@ def execute(hist, path):
             st = "raise"
         except Exception as e:  # noqa
             st = "other:" + type(e).__name__
+            msg = str(e)[:200]
         if st != "ok":
-            gc.collect(1)      # drop the importer's connection of a failed update (young generations only)
-        o = {"st": st, "db": dbio.proj_file(path), "bak": dbio.proj_file(path + ".bak") if os.path.exists(path + ".bak") else None}
+            gc.collect()       # drop the importer's connection of a failed update NOW (it sits in a reference cycle; a partial collection would depend on allocation history)
+        o = {"st": st, "db": dbio.proj_file(path), "bak": dbio.proj_file(path + ".bak") if os.path.exists(path + ".bak") else None, "msg": msg}
         obs.append(o)
         if op == "updatefail" or (op == "addrel" and st == "raise"):
             break
@@ -111,7 +113,7 @@ def first_mismatch(hist, obs):
     for k, (step, o) in enumerate(zip(hist, obs)):
         exp = step["snap"]
         if o["st"] != exp["st"]:
-            return k, "status:%s_vs_%s" % (o["st"], exp["st"])
+            return k, "status:%s_vs_%s%s" % (o["st"], exp["st"], (" (" + o.get("msg", "") + ")") if o.get("msg") else "")
         if step["op"] != "updatefail":
             d = G.diff_clause(G.canon_snap(exp["db"]), G.canon_snap(o["db"]))
             if d:
